@@ -10,6 +10,7 @@ from ..script import Case
 BIG = sessions.BIGBUF
 MAXN = 2**64 - 1
 DEC_FAULT_MAGIC = "decfa0177666"
+ZEROS32_DIG = "32:" + __import__("hashlib").sha256(bytes(32)).hexdigest()[:16]
 VALUES = [0, 1, 2, 2**32 - 1, 2**32, 2**63, MAXN - 3, MAXN - 2, MAXN - 1, MAXN]
 
 
@@ -165,7 +166,10 @@ class CheckC09(core.Check):
             for kind, sub, kv in e.subs:
                 if kind == "c" and sub in ("enc", "dec"):
                     r.stats["cipher_events_checked"] += 1
-                    if kv.get("n") == str(MAXN):
+                    if kv.get("n") == str(MAXN) and sub == "enc" and kv.get("ad", "-") == "-" and kv.get("pt") == ZEROS32_DIG:
+                        # ENCRYPT(k, 2^64-1, "", 32 zero bytes) is the REKEY computation itself (spec 4.2), not a message
+                        r.stats["rekey_computations_seen_at_the_trait"] += 1
+                    elif kv.get("n") == str(MAXN):
                         r.viol("C09|reserved-nonce-used|%s|%s" % (sub, e.op), "%s: the reserved nonce 2^64-1 was handed to the AEAD (%s) during %s %s" % (tag, sub, e.op, e.label))
                         return r
         sn = {"A": 0, "B": 0}
